@@ -276,6 +276,7 @@ ADDED7 = {
 ADDED8 = {
  "C03": "Round 13: a cache key that reads the data only through a projection of its shape (.size, .ndim, len()) does not cover a value computed from .shape (C03.a, J2 refined; applies to every hidden-state rule).",
  "C15": "Round 13: each request builds its own arrays -- no functools cache (decorator or module-level rebinding) around the three table functions (C15.d); the folded tables are those of every request, not only the first.",
+ "C16": "Round 13: a reset() that keeps a history buffer on some path is a violation when __call__ writes its columns by the caller's iteration count and reads a slice sized by the restart counter (C16.d); otherwise undecided.",
  "C17": "Round 13: an augmented assignment to a metadata list (x.date += [...]) is an in-place write into a possibly shared list (C17.b).",
 }
 GENERIC2 = " For every property: no default-argument object is modified in place, and optional parameters (default None) of the anchored modules are compared with None, never tested by truth value."
